@@ -16,6 +16,7 @@ Values
 """
 import copy
 import sys
+import os
 
 from front import const_int, AnalysisBroken
 
@@ -974,6 +975,12 @@ class Interp:
     def ev_CallExpr(self, e, st):
         callee = e['inner'][0]
         args = e['inner'][1:]
+        cn = callee
+        while cn.get('kind') in ('ImplicitCastExpr', 'ParenExpr') and cn.get('inner'):
+            cn = cn['inner'][0]
+        if cn.get('kind') == 'DeclRefExpr' and cn.get('referencedDecl', {}).get('name') in ('__builtin_va_start', '__builtin_va_end', '__builtin_va_copy'):
+            # the variable arguments of an inlined variadic function are kept per frame (va_stack); the list object itself is opaque
+            return [(st, Int(0))]
         out = []
         for s, fv in self.ev(callee, st):
             for s2, avs in self.evs(args, s):
@@ -1233,6 +1240,9 @@ class Interp:
         st.trace.append(('enter', name, args, node_loc(node) if node else None))
         self.depth += 1
         self.frames.append(name)
+        if not hasattr(self, 'va_stack'):
+            self.va_stack = []
+        self.va_stack.append(list(args[len(params):]))
         self.live_base.append(len(self.live_stack))
         self.fn_locals.append(self.local_ids(f))
         try:
@@ -1286,6 +1296,7 @@ class Interp:
         finally:
             self.depth -= 1
             self.frames.pop()
+            self.va_stack.pop()
             self.live_base.pop()
             self.fn_locals.pop()
 
@@ -1891,7 +1902,22 @@ class Interp:
             first = False
             if not nxt:
                 return outs
-            if len(nxt) > 64:
+            if len(nxt) > 8 and self.merge:
+                # states that went through different outcomes of a callee but ended up the same are one state for the next iteration
+                seen = {}
+                ded = []
+                for s in nxt:
+                    sig = self.signature(s, Int(0))
+                    if sig in seen:
+                        self.merged += 1
+                        self.join_facts(seen[sig], s)
+                        continue
+                    seen[sig] = s
+                    ded.append(s)
+                nxt = ded
+            if len(nxt) > 1024:
+                if os.environ.get('VERIF_SHOW_HAVOC'):
+                    sys.stderr.write('concrete unrolling gave up: %d states\n' % len(nxt))
                 return None
             cur = nxt
         return None
@@ -1912,13 +1938,17 @@ class Interp:
             saved_steps = self.steps
             try:
                 r = self.try_concrete_loop(s, cond, inc, body, do)
-            except (Unsupported, Infeasible):
+            except (Unsupported, Infeasible) as ex:
+                if os.environ.get('VERIF_SHOW_HAVOC'):
+                    sys.stderr.write('concrete unrolling gave up: %r\n' % (ex,))
                 r = None
             if r is not None:
                 self.concrete_loops += 1
                 outs.extend(r)
                 continue
             self.havoc_loops += 1
+            if os.environ.get('VERIF_SHOW_HAVOC'):
+                sys.stderr.write('havoc loop at %s in %s\n' % (loc_str(n), self.frames[-1] if self.frames else '?'))
             tag = n.get('id')
             if do:
                 # body once, then as while
